@@ -1,6 +1,7 @@
 import GeoVerif.Model.Mask
 import GeoVerif.Proofs.LineState
 import GeoVerif.Model.Overloads
+import GeoVerif.Model.MaskInverse
 /-!
 # C12 — output masks and line capabilities
 
@@ -750,5 +751,417 @@ theorem line_enums_agree : Overloads.lineEnumsAgree = true := by decide
 
 /-- non-vacuity: the table is not empty, e.g. it has the 20 + 20 + 13 + 13 + 6 + 2 members the headers declare today -/
 example : Gen.Overloads.table.length = 74 ∧ Gen.Overloads.decls.length = 9 := by decide
+
+/-! ### `GenInverse`: the canonical `lengthmask` -/
+
+theorem want_M21 (e : Enum) (x : Nat) : want e x .M21 = want e x .M12 := rfl
+
+/-- the masks `GenInverse` passes to `Lengths` are *canonical* at the (reduced) mask `m`: what the caller wants is asked
+    of `Lengths`, `GEODESICSCALE` is asked of it exactly when the caller wants it, on the meridional branch the distance
+    and the reduced length are always obtained (they are tested), and `DISTANCE` accompanies `REDUCEDLENGTH` /
+    `GEODESICSCALE` (so that the series `Lengths` forms `J12` in one way only) -/
+def Canon (c : InvCfg) (m : Nat) : Prop :=
+  (want c.e m .s12 = true → want c.e (c.newt m &&& c.red) .s12 = true) ∧
+  (want c.e m .m12 = true → want c.e (c.newt m &&& c.red) .m12 = true) ∧
+  want c.e (c.newt m &&& c.red) .M12 = want c.e m .M12 ∧
+  (wantRG c.e (c.newt m &&& c.red) = true → want c.e (c.newt m &&& c.red) .s12 = true) ∧
+  want c.e (c.mer m &&& c.red) .M12 = want c.e m .M12 ∧
+  want c.e (c.mer m &&& c.red) .m12 = true ∧
+  want c.e (c.mer m &&& c.red) .s12 = true
+instance (c : InvCfg) (m : Nat) : Decidable (Canon c m) := by unfold Canon; infer_instance
+
+/-- the same without the two `DISTANCE` clauses (the exact `Lengths` forms `J12` in one way) -/
+def CanonX (c : InvCfg) (m : Nat) : Prop :=
+  (want c.e m .s12 = true → want c.e (c.newt m &&& c.red) .s12 = true) ∧
+  (want c.e m .m12 = true → want c.e (c.newt m &&& c.red) .m12 = true) ∧
+  want c.e (c.newt m &&& c.red) .M12 = want c.e m .M12 ∧
+  want c.e (c.mer m &&& c.red) .M12 = want c.e m .M12 ∧
+  want c.e (c.mer m &&& c.red) .m12 = true
+instance (c : InvCfg) (m : Nat) : Decidable (CanonX c m) := by unfold CanonX; infer_instance
+
+/-! series `Lengths`: each output is one term whenever `DISTANCE` is among the requests -/
+theorem lengthsG_s12b (e : Enum) (l1 l2 : Nat) (eps : T) (h1 : want e l1 .s12 = true) (h2 : want e l2 .s12 = true) :
+    (lengthsG e l1 eps).s12b = (lengthsG e l2 eps).s12b := by
+  have a := wantLen_of e l1 .s12 (Or.inl rfl) h1
+  have b := wantLen_of e l2 .s12 (Or.inl rfl) h2
+  simp only [lengthsG, h1, h2, a, b, if_true]
+
+theorem lengthsG_m12b (e : Enum) (l1 l2 : Nat) (eps : T) (h1 : want e l1 .s12 = true) (h2 : want e l2 .s12 = true)
+    (r1 : want e l1 .m12 = true) (r2 : want e l2 .m12 = true) :
+    (lengthsG e l1 eps).m12b = (lengthsG e l2 eps).m12b := by
+  have a := wantLen_of e l1 .s12 (Or.inl rfl) h1
+  have b := wantLen_of e l2 .s12 (Or.inl rfl) h2
+  have c := wantRG_of e l1 .m12 (Or.inl rfl) r1
+  have d := wantRG_of e l2 .m12 (Or.inl rfl) r2
+  simp only [lengthsG, h1, h2, r1, r2, a, b, c, d, if_true, Bool.and_self]
+
+theorem lengthsG_M (e : Enum) (l1 l2 : Nat) (eps : T) (h1 : want e l1 .s12 = true) (h2 : want e l2 .s12 = true)
+    (g1 : want e l1 .M12 = true) (g2 : want e l2 .M12 = true) :
+    (lengthsG e l1 eps).M12 = (lengthsG e l2 eps).M12 ∧ (lengthsG e l1 eps).M21 = (lengthsG e l2 eps).M21 := by
+  have a := wantLen_of e l1 .s12 (Or.inl rfl) h1
+  have b := wantLen_of e l2 .s12 (Or.inl rfl) h2
+  have c := wantRG_of e l1 .M12 (Or.inr (Or.inl rfl)) g1
+  have d := wantRG_of e l2 .M12 (Or.inr (Or.inl rfl)) g2
+  have g1' : want e l1 .M21 = true := g1
+  have g2' : want e l2 .M21 = true := g2
+  constructor <;> simp only [lengthsG, h1, h2, g1, g2, g1', g2', a, b, c, d, if_true, Bool.and_self]
+
+theorem lengthsG_M_none (e : Enum) (l : Nat) (eps : T) (g : want e l .M12 = false) :
+    (lengthsG e l eps).M12 = none ∧ (lengthsG e l eps).M21 = none := by
+  have g' : want e l .M21 = false := g
+  constructor <;> simp [lengthsG, g, g']
+
+
+theorem invCoreG_a12 (c : InvCfg) (hl : c.lengths = lengthsG) (br : InvBranch) (m1 m2 : Nat) (c1 : Canon c m1) (c2 : Canon c m2) :
+    (invCore c br m1).a12 = (invCore c br m2).a12 := by
+  obtain ⟨_, _, _, _, _, mm1, ms1⟩ := c1
+  obtain ⟨_, _, _, _, _, mm2, ms2⟩ := c2
+  have hs := lengthsG_s12b c.e (c.mer m1 &&& c.red) (c.mer m2 &&& c.red) (.sym "_n|E") ms1 ms2
+  have hm := lengthsG_m12b c.e (c.mer m1 &&& c.red) (c.mer m2 &&& c.red) (.sym "_n|E") ms1 ms2 mm1 mm2
+  cases br <;> simp only [invCore, hl, hs, hm]
+
+theorem invCoreG_s12x (c : InvCfg) (hl : c.lengths = lengthsG) (br : InvBranch) (m1 m2 : Nat) (c1 : Canon c m1) (c2 : Canon c m2)
+    (h1 : want c.e m1 .s12 = true) (h2 : want c.e m2 .s12 = true) :
+    (invCore c br m1).s12x = (invCore c br m2).s12x := by
+  obtain ⟨ns1, _, _, _, _, mm1, ms1⟩ := c1
+  obtain ⟨ns2, _, _, _, _, mm2, ms2⟩ := c2
+  have hs := lengthsG_s12b c.e (c.mer m1 &&& c.red) (c.mer m2 &&& c.red) (.sym "_n|E") ms1 ms2
+  have hm := lengthsG_m12b c.e (c.mer m1 &&& c.red) (c.mer m2 &&& c.red) (.sym "_n|E") ms1 ms2 mm1 mm2
+  have hn := lengthsG_s12b c.e (c.newt m1 &&& c.red) (c.newt m2 &&& c.red) (.sym "eps|E") (ns1 h1) (ns2 h2)
+  cases br <;> simp only [invCore, hl, hs, hm, hn]
+
+theorem invCoreG_m12x (c : InvCfg) (hl : c.lengths = lengthsG) (br : InvBranch) (m1 m2 : Nat) (c1 : Canon c m1) (c2 : Canon c m2)
+    (h1 : want c.e m1 .m12 = true) (h2 : want c.e m2 .m12 = true) :
+    (invCore c br m1).m12x = (invCore c br m2).m12x := by
+  obtain ⟨_, nm1, _, nJ1, _, mm1, ms1⟩ := c1
+  obtain ⟨_, nm2, _, nJ2, _, mm2, ms2⟩ := c2
+  have hs := lengthsG_s12b c.e (c.mer m1 &&& c.red) (c.mer m2 &&& c.red) (.sym "_n|E") ms1 ms2
+  have hm := lengthsG_m12b c.e (c.mer m1 &&& c.red) (c.mer m2 &&& c.red) (.sym "_n|E") ms1 ms2 mm1 mm2
+  have d1 := nJ1 (wantRG_of c.e _ .m12 (Or.inl rfl) (nm1 h1))
+  have d2 := nJ2 (wantRG_of c.e _ .m12 (Or.inl rfl) (nm2 h2))
+  have hn := lengthsG_m12b c.e (c.newt m1 &&& c.red) (c.newt m2 &&& c.red) (.sym "eps|E") d1 d2 (nm1 h1) (nm2 h2)
+  cases br <;> simp only [invCore, hl, hs, hm, hn]
+
+theorem invCoreG_M (c : InvCfg) (hl : c.lengths = lengthsG) (br : InvBranch) (m1 m2 : Nat) (c1 : Canon c m1) (c2 : Canon c m2)
+    (h1 : want c.e m1 .M12 = true) (h2 : want c.e m2 .M12 = true) :
+    (invCore c br m1).M12 = (invCore c br m2).M12 ∧ (invCore c br m1).M21 = (invCore c br m2).M21 := by
+  obtain ⟨_, _, nG1, nJ1, mG1, _, ms1⟩ := c1
+  obtain ⟨_, _, nG2, nJ2, mG2, _, ms2⟩ := c2
+  have g1 : want c.e (c.newt m1 &&& c.red) .M12 = true := by rw [nG1]; exact h1
+  have g2 : want c.e (c.newt m2 &&& c.red) .M12 = true := by rw [nG2]; exact h2
+  have k1 : want c.e (c.mer m1 &&& c.red) .M12 = true := by rw [mG1]; exact h1
+  have k2 : want c.e (c.mer m2 &&& c.red) .M12 = true := by rw [mG2]; exact h2
+  have d1 := nJ1 (wantRG_of c.e _ .M12 (Or.inr (Or.inl rfl)) g1)
+  have d2 := nJ2 (wantRG_of c.e _ .M12 (Or.inr (Or.inl rfl)) g2)
+  have hn := lengthsG_M c.e (c.newt m1 &&& c.red) (c.newt m2 &&& c.red) (.sym "eps|E") d1 d2 g1 g2
+  have hm := lengthsG_M c.e (c.mer m1 &&& c.red) (c.mer m2 &&& c.red) (.sym "_n|E") ms1 ms2 k1 k2
+  cases br <;> simp only [invCore, hl, hn.1, hn.2, hm.1, hm.2, h1, h2, and_self]
+
+/-- **series `GenInverse`, value independent of the mask**: if the masks handed to `Lengths` are canonical at both masks,
+    an output requested under both is assigned the same term — on every branch (meridional, equatorial, short, Newton) -/
+theorem genInverseG_mask_independent (c : InvCfg) (hl : c.lengths = lengthsG) (wred : Nat) (br : InvBranch) (om1 om2 : Nat) (o : Out)
+    (h1 : want c.e (om1 &&& wred) o = true) (h2 : want c.e (om2 &&& wred) o = true)
+    (c1 : Canon c (om1 &&& wred)) (c2 : Canon c (om2 &&& wred)) :
+    genInverse c wred br om1 o = genInverse c wred br om2 o ∧ genInverseRet c wred br om1 = genInverseRet c wred br om2 := by
+  refine ⟨?_, invCoreG_a12 c hl br _ _ c1 c2⟩
+  cases o
+  case lat2 => rfl
+  case lon2 => rfl
+  case azi2 => simp only [genInverse, h1, h2]
+  case S12 => simp only [genInverse, h1, h2]
+  case s12 => simp only [genInverse, h1, h2, invCoreG_s12x c hl br _ _ c1 c2 h1 h2]
+  case m12 => simp only [genInverse, h1, h2, invCoreG_m12x c hl br _ _ c1 c2 h1 h2]
+  case M12 =>
+    have := invCoreG_M c hl br _ _ c1 c2 h1 h2
+    simp only [genInverse, h1, h2, this.1, this.2]
+  case M21 =>
+    have := invCoreG_M c hl br _ _ c1 c2 h1 h2
+    have h1' : want c.e (om1 &&& wred) .M21 = true := h1
+    simp only [genInverse, h1, h2, this.1, this.2]
+
+
+/-! exact `Lengths` -/
+theorem lengthsX_s12b (e : Enum) (l1 l2 : Nat) (E : T) (h1 : want e l1 .s12 = true) (h2 : want e l2 .s12 = true) :
+    (lengthsX e l1 E).s12b = (lengthsX e l2 E).s12b := by
+  simp only [lengthsX, h1, h2, if_true]
+
+theorem lengthsX_m12b (e : Enum) (l1 l2 : Nat) (E : T) (r1 : want e l1 .m12 = true) (r2 : want e l2 .m12 = true) :
+    (lengthsX e l1 E).m12b = (lengthsX e l2 E).m12b := by
+  have c := wantRG_of e l1 .m12 (Or.inl rfl) r1
+  have d := wantRG_of e l2 .m12 (Or.inl rfl) r2
+  simp only [lengthsX, r1, r2, c, d, if_true, Bool.and_self]
+
+theorem lengthsX_M (e : Enum) (l1 l2 : Nat) (E : T) (g1 : want e l1 .M12 = true) (g2 : want e l2 .M12 = true) :
+    (lengthsX e l1 E).M12 = (lengthsX e l2 E).M12 ∧ (lengthsX e l1 E).M21 = (lengthsX e l2 E).M21 := by
+  have c := wantRG_of e l1 .M12 (Or.inr (Or.inl rfl)) g1
+  have d := wantRG_of e l2 .M12 (Or.inr (Or.inl rfl)) g2
+  have g1' : want e l1 .M21 = true := g1
+  have g2' : want e l2 .M21 = true := g2
+  constructor <;> simp only [lengthsX, g1, g2, g1', g2', c, d, if_true, Bool.and_self]
+
+/-- **exact `GenInverse`, value independent of the mask** — `_partial`: on the meridional branch the statement needs the
+    hypothesis `hmer` that `DISTANCE` is among what `Lengths` is asked for (with both masks).  The full statement (the one
+    proved for the series solver, without `hmer`) is *false* for the current `GeodesicExact.cpp`: its meridional call passes
+    `outmask | REDUCEDLENGTH`, so without `DISTANCE` the local `s12x` is read uninitialised by the short-line test
+    (finding G12-2; see the `example` below). -/
+theorem genInverseX_mask_independent_partial (c : InvCfg) (hl : c.lengths = lengthsX) (wred : Nat) (br : InvBranch) (om1 om2 : Nat) (o : Out)
+    (h1 : want c.e (om1 &&& wred) o = true) (h2 : want c.e (om2 &&& wred) o = true)
+    (c1 : CanonX c (om1 &&& wred)) (c2 : CanonX c (om2 &&& wred))
+    (hmer : br = .meridian → want c.e (c.mer (om1 &&& wred) &&& c.red) .s12 = true ∧ want c.e (c.mer (om2 &&& wred) &&& c.red) .s12 = true) :
+    genInverse c wred br om1 o = genInverse c wred br om2 o ∧ genInverseRet c wred br om1 = genInverseRet c wred br om2 := by
+  obtain ⟨ns1, nm1, nG1, mG1, mm1⟩ := c1
+  obtain ⟨ns2, nm2, nG2, mG2, mm2⟩ := c2
+  have hm := lengthsX_m12b c.e (c.mer (om1 &&& wred) &&& c.red) (c.mer (om2 &&& wred) &&& c.red) (.sym "_n|E") mm1 mm2
+  have hmerS : br = .meridian → (lengthsX c.e (c.mer (om1 &&& wred) &&& c.red) (.sym "_n|E")).s12b = (lengthsX c.e (c.mer (om2 &&& wred) &&& c.red) (.sym "_n|E")).s12b :=
+    fun hb => lengthsX_s12b c.e _ _ _ (hmer hb).1 (hmer hb).2
+  have hM : want c.e (om1 &&& wred) .M12 = true → want c.e (om2 &&& wred) .M12 = true →
+      (invCore c br (om1 &&& wred)).M12 = (invCore c br (om2 &&& wred)).M12 ∧ (invCore c br (om1 &&& wred)).M21 = (invCore c br (om2 &&& wred)).M21 := by
+    intro g1 g2
+    have a := lengthsX_M c.e (c.newt (om1 &&& wred) &&& c.red) (c.newt (om2 &&& wred) &&& c.red) (.sym "eps|E") (by rw [nG1]; exact g1) (by rw [nG2]; exact g2)
+    have b := lengthsX_M c.e (c.mer (om1 &&& wred) &&& c.red) (c.mer (om2 &&& wred) &&& c.red) (.sym "_n|E") (by rw [mG1]; exact g1) (by rw [mG2]; exact g2)
+    cases br <;> simp only [invCore, hl, a.1, a.2, b.1, b.2, g1, g2, and_self]
+  refine ⟨?_, ?_⟩
+  · cases o
+    case lat2 => rfl
+    case lon2 => rfl
+    case azi2 => simp only [genInverse, h1, h2]
+    case S12 => simp only [genInverse, h1, h2]
+    case s12 =>
+      have hn := lengthsX_s12b c.e (c.newt (om1 &&& wred) &&& c.red) (c.newt (om2 &&& wred) &&& c.red) (.sym "eps|E") (ns1 h1) (ns2 h2)
+      cases br
+      case meridian => simp only [genInverse, h1, h2, invCore, hl, hm, hmerS rfl]
+      all_goals simp only [genInverse, h1, h2, invCore, hl, hn]
+    case m12 =>
+      have hn := lengthsX_m12b c.e (c.newt (om1 &&& wred) &&& c.red) (c.newt (om2 &&& wred) &&& c.red) (.sym "eps|E") (nm1 h1) (nm2 h2)
+      cases br
+      case meridian => simp only [genInverse, h1, h2, invCore, hl, hm, hmerS rfl]
+      all_goals simp only [genInverse, h1, h2, invCore, hl, hn]
+    case M12 => have := hM h1 h2; simp only [genInverse, h1, h2, this.1, this.2]
+    case M21 => have := hM h1 h2; simp only [genInverse, h1, h2, this.1, this.2]
+  · cases br
+    case meridian => simp only [genInverseRet, invCore, hl, hm, hmerS rfl]
+    all_goals simp only [genInverseRet, invCore]
+
+/-- requested ⇔ assigned, for both solvers: with canonical masks the outputs `GenInverse` assigns are exactly those of the
+    executed model `writtenInverse` (which the driver compares with the implementation for every mask) -/
+theorem genInverse_isSome_iff (c : InvCfg) (hl : c.lengths = lengthsG ∨ c.lengths = lengthsX) (br : InvBranch) (om : Nat) (o : Out)
+    (cx : CanonX c (om &&& c.e.outMask)) :
+    (genInverse c c.e.outMask br om o).isSome = true ↔ o ∈ writtenInverse c.e om := by
+  obtain ⟨ns, nm, nG, mG, mm⟩ := cx
+  have hw : o ∈ writtenInverse c.e om ↔ (o ≠ .lat2 ∧ o ≠ .lon2) ∧ want c.e (om &&& c.e.outMask) o = true := by
+    unfold writtenInverse want
+    cases o <;> simp [List.mem_filter]
+  rw [hw]
+  by_cases h : want c.e (om &&& c.e.outMask) o = true
+  · have hG : o = .M12 ∨ o = .M21 → (invCore c br (om &&& c.e.outMask)).M12.isSome = true ∧ (invCore c br (om &&& c.e.outMask)).M21.isSome = true := by
+      intro ho
+      have g : want c.e (om &&& c.e.outMask) .M12 = true := by rcases ho with rfl | rfl <;> exact h
+      have g1 : want c.e (c.newt (om &&& c.e.outMask) &&& c.red) .M12 = true := by rw [nG]; exact g
+      have g2 : want c.e (c.mer (om &&& c.e.outMask) &&& c.red) .M12 = true := by rw [mG]; exact g
+      have g1' : want c.e (c.newt (om &&& c.e.outMask) &&& c.red) .M21 = true := g1
+      have g2' : want c.e (c.mer (om &&& c.e.outMask) &&& c.red) .M21 = true := g2
+      have r1 := wantRG_of c.e _ .M12 (Or.inr (Or.inl rfl)) g1
+      have r2 := wantRG_of c.e _ .M12 (Or.inr (Or.inl rfl)) g2
+      rcases hl with hl | hl <;> cases br <;> simp [invCore, hl, lengthsG, lengthsX, g, g1, g2, g1', g2', r1, r2]
+    cases o
+    case lat2 => simp [genInverse]
+    case lon2 => simp [genInverse]
+    case azi2 => simp [genInverse, h]
+    case S12 => simp [genInverse, h]
+    case s12 => simp [genInverse, h]
+    case m12 => simp [genInverse, h]
+    case M12 =>
+      have := hG (Or.inl rfl)
+      obtain ⟨a, ha⟩ := Option.isSome_iff_exists.mp this.1
+      obtain ⟨b, hb⟩ := Option.isSome_iff_exists.mp this.2
+      simp [genInverse, h, ha, hb]
+    case M21 =>
+      have := hG (Or.inr rfl)
+      obtain ⟨a, ha⟩ := Option.isSome_iff_exists.mp this.1
+      obtain ⟨b, hb⟩ := Option.isSome_iff_exists.mp this.2
+      simp [genInverse, h, ha, hb]
+  · have h' : want c.e (om &&& c.e.outMask) o = false := by simpa using h
+    have hG : o = .M12 ∨ o = .M21 → (invCore c br (om &&& c.e.outMask)).M12 = none ∧ (invCore c br (om &&& c.e.outMask)).M21 = none := by
+      intro ho
+      have g : want c.e (om &&& c.e.outMask) .M12 = false := by rcases ho with rfl | rfl <;> exact h'
+      have g1 : want c.e (c.newt (om &&& c.e.outMask) &&& c.red) .M12 = false := by rw [nG]; exact g
+      have g2 : want c.e (c.mer (om &&& c.e.outMask) &&& c.red) .M12 = false := by rw [mG]; exact g
+      have g1' : want c.e (c.newt (om &&& c.e.outMask) &&& c.red) .M21 = false := g1
+      have g2' : want c.e (c.mer (om &&& c.e.outMask) &&& c.red) .M21 = false := g2
+      rcases hl with hl | hl <;> cases br <;> simp [invCore, hl, lengthsG, lengthsX, g, g1, g2, g1', g2']
+    cases o
+    case lat2 => simp [genInverse]
+    case lon2 => simp [genInverse]
+    case azi2 => simp [genInverse, h']
+    case S12 => simp [genInverse, h']
+    case s12 => simp [genInverse, h']
+    case m12 => simp [genInverse, h']
+    case M12 => simp [genInverse, h', (hG (Or.inl rfl)).1]
+    case M21 => simp [genInverse, h', (hG (Or.inr rfl)).2]
+
+
+/-! #### the masks extracted from the current sources are canonical (`Gen/LengthMask.lean`, re-read on every run) -/
+open Gen.LengthMask in
+/-- **series**: for every union of the documented flag constants (all 2⁹ selections), the masks `Geodesic::GenInverse`
+    hands to `Lengths` — `outmask | DISTANCE | REDUCEDLENGTH` on the meridional branch and the canonical `lengthmask` after
+    Newton's method, as extracted from `Geodesic.cpp` — are canonical -/
+theorem geod_lengthmask_canonical : ∀ sel < 512, Canon cfgG (buildMask geod sel &&& geod_wrapperReduce) := by decide +kernel
+
+open Gen.LengthMask in
+/-- **exact**: the masks extracted from `GeodesicExact.cpp` satisfy the conditions the exact `Lengths` needs -/
+theorem geodx_lengthmask_canonical : ∀ sel < 512, CanonX cfgX (buildMask geodx sel &&& geodx_wrapperReduce) := by decide +kernel
+
+open Gen.LengthMask in
+theorem geodx_meridian_distance : ∀ sel < 512, sel.testBit 3 = true →
+    want geodx (geodx_meridian (buildMask geodx sel &&& geodx_wrapperReduce) &&& geodx_lengthsReduce) .s12 = true := by decide +kernel
+
+theorem mem_writtenInverse_iff (e : Enum) (om : Nat) (o : Out) :
+    o ∈ writtenInverse e om ↔ (o ≠ .lat2 ∧ o ≠ .lon2) ∧ want e (om &&& e.outMask) o = true := by
+  unfold writtenInverse want
+  cases o <;> simp [List.mem_filter]
+
+open Gen.LengthMask in
+/-- **`Geodesic::GenInverse`: the value of every output, and the returned `a12`, is independent of the mask** — all 2⁷
+    output masks, with and without `LONG_UNROLL` and `DISTANCE_IN` (which `GenInverse` ignores), every branch -/
+theorem geod_inverse_value_mask_independent (sel1 sel2 : Nat) (hs1 : sel1 < 512) (hs2 : sel2 < 512) (br : InvBranch) (o : Out)
+    (w1 : o ∈ writtenInverse geod (buildMask geod sel1)) (w2 : o ∈ writtenInverse geod (buildMask geod sel2)) :
+    genInverse cfgG geod_wrapperReduce br (buildMask geod sel1) o = genInverse cfgG geod_wrapperReduce br (buildMask geod sel2) o ∧
+    genInverseRet cfgG geod_wrapperReduce br (buildMask geod sel1) = genInverseRet cfgG geod_wrapperReduce br (buildMask geod sel2) :=
+  genInverseG_mask_independent cfgG rfl _ br _ _ o ((mem_writtenInverse_iff geod _ o).mp w1).2 ((mem_writtenInverse_iff geod _ o).mp w2).2
+    (geod_lengthmask_canonical sel1 hs1) (geod_lengthmask_canonical sel2 hs2)
+
+open Gen.LengthMask in
+/-- the returned arc length of the series `GenInverse` does not depend on the mask at all (nothing need be requested) -/
+theorem geod_inverse_a12_mask_independent (sel1 sel2 : Nat) (hs1 : sel1 < 512) (hs2 : sel2 < 512) (br : InvBranch) :
+    genInverseRet cfgG geod_wrapperReduce br (buildMask geod sel1) = genInverseRet cfgG geod_wrapperReduce br (buildMask geod sel2) :=
+  invCoreG_a12 cfgG rfl br _ _ (geod_lengthmask_canonical sel1 hs1) (geod_lengthmask_canonical sel2 hs2)
+
+open Gen.LengthMask in
+/-- **`GeodesicExact::GenInverse`** — `_partial`: on the meridional branch only for masks that contain `DISTANCE`
+    (bit 3 of the selection).  Full statement = the one above for the series solver; it fails for the current source on the
+    meridional branch without `DISTANCE` (finding G12-2: `s12x` read uninitialised). -/
+theorem geodx_inverse_value_mask_independent_partial (sel1 sel2 : Nat) (hs1 : sel1 < 512) (hs2 : sel2 < 512) (br : InvBranch) (o : Out)
+    (w1 : o ∈ writtenInverse geodx (buildMask geodx sel1)) (w2 : o ∈ writtenInverse geodx (buildMask geodx sel2))
+    (hmer : br = .meridian → sel1.testBit 3 = true ∧ sel2.testBit 3 = true) :
+    genInverse cfgX geodx_wrapperReduce br (buildMask geodx sel1) o = genInverse cfgX geodx_wrapperReduce br (buildMask geodx sel2) o ∧
+    genInverseRet cfgX geodx_wrapperReduce br (buildMask geodx sel1) = genInverseRet cfgX geodx_wrapperReduce br (buildMask geodx sel2) :=
+  genInverseX_mask_independent_partial cfgX rfl _ br _ _ o ((mem_writtenInverse_iff geodx _ o).mp w1).2 ((mem_writtenInverse_iff geodx _ o).mp w2).2
+    (geodx_lengthmask_canonical sel1 hs1) (geodx_lengthmask_canonical sel2 hs2)
+    (fun hb => ⟨geodx_meridian_distance sel1 hs1 (hmer hb).1, geodx_meridian_distance sel2 hs2 (hmer hb).2⟩)
+
+open Gen.LengthMask in
+/-- requested ⇔ assigned for the extracted masks, both solvers, every flag union, every branch -/
+theorem inverse_written_spec (sel : Nat) (hs : sel < 512) (br : InvBranch) (o : Out) :
+    ((genInverse cfgG geod_wrapperReduce br (buildMask geod sel) o).isSome = true ↔ o ∈ writtenInverse geod (buildMask geod sel)) ∧
+    ((genInverse cfgX geodx_wrapperReduce br (buildMask geodx sel) o).isSome = true ↔ o ∈ writtenInverse geodx (buildMask geodx sel)) := by
+  have a := geod_lengthmask_canonical sel hs
+  obtain ⟨a1, a2, a3, _, a5, a6, _⟩ := a
+  exact ⟨genInverse_isSome_iff cfgG (Or.inl rfl) br _ o ⟨a1, a2, a3, a5, a6⟩, genInverse_isSome_iff cfgX (Or.inr rfl) br _ o (geodx_lengthmask_canonical sel hs)⟩
+
+/-- non-vacuity: `m12` is written both for `REDUCEDLENGTH` alone (selection 32) and for everything (selection 0xEF), and
+    the Newton-branch term is the one formed with the `DISTANCE` series although selection 32 does not request `DISTANCE` -/
+example : Out.m12 ∈ writtenInverse geod (buildMask geod 32) ∧ Out.m12 ∈ writtenInverse geod (buildMask geod 0xEF) ∧
+    want geod (buildMask geod 32 &&& Gen.LengthMask.geod_wrapperReduce) .s12 = false ∧
+    want geod (Gen.LengthMask.geod_newton (buildMask geod 32 &&& Gen.LengthMask.geod_wrapperReduce) &&& Gen.LengthMask.geod_lengthsReduce) .s12 = true := by decide
+
+/-! ### rhumb: `RhumbLine::GenPosition` (= `Rhumb::GenDirect`) and `Rhumb::GenInverse` -/
+
+/-- the flag that governs an output of the rhumb solvers -/
+def rhumbFlag : Out → Nat
+  | .lat2 => rhumb_LATITUDE | .lon2 => rhumb_LONGITUDE | .azi2 => rhumb_AZIMUTH | .s12 => rhumb_DISTANCE | .S12 => rhumb_AREA | _ => 0
+
+/-- **rhumb direct, value independent of the mask**: two masks that both request `o` assign it the same term — for `lon2`
+    provided they agree on `LONG_UNROLL` (which changes its documented meaning); in particular **`S12` does not depend on
+    `LONG_UNROLL`** nor on whether `lat2` / `lon2` are requested (it is formed from the longitude difference before that is
+    reduced or added to `lon1`), on either side of the pole -/
+theorem rhumbPosition_mask_independent (m1 m2 : Nat) (pole : Bool) (o : Out)
+    (h1 : (m1 &&& rhumbFlag o != 0) = true) (h2 : (m2 &&& rhumbFlag o != 0) = true)
+    (hu : o = .lon2 → (m1 &&& rhumb_LONG_UNROLL != 0) = (m2 &&& rhumb_LONG_UNROLL != 0)) :
+    rhumbPosition m1 pole o = rhumbPosition m2 pole o := by
+  cases o
+  case lat2 => simp only [rhumbFlag] at h1 h2; simp only [rhumbPosition, h1, h2]
+  case lon2 => simp only [rhumbFlag] at h1 h2; simp only [rhumbPosition, h1, h2, hu rfl]
+  case S12 => simp only [rhumbFlag] at h1 h2; simp only [rhumbPosition, h1, h2]
+  all_goals rfl
+
+/-- requested ⇔ assigned: the outputs `RhumbLine::GenPosition` assigns are those of the executed model
+    `writtenRhumbDirect`; beyond the pole `lon2` and `S12` are *assigned* NaN, not left untouched -/
+theorem rhumbPosition_isSome_iff (m : Nat) (pole : Bool) (o : Out) :
+    (rhumbPosition m pole o).isSome = true ↔ o ∈ writtenRhumbDirect m := by
+  unfold writtenRhumbDirect rhumbPosition
+  by_cases a : m &&& rhumb_LATITUDE = 0 <;> by_cases b : m &&& rhumb_LONGITUDE = 0 <;>
+    by_cases c : m &&& rhumb_AREA = 0 <;> cases o <;> simp [a, b, c]
+
+theorem rhumbInverse_mask_independent (m1 m2 : Nat) (o : Out)
+    (h1 : (m1 &&& rhumbFlag o != 0) = true) (h2 : (m2 &&& rhumbFlag o != 0) = true) :
+    rhumbInverse m1 o = rhumbInverse m2 o := by
+  cases o
+  case azi2 => simp only [rhumbFlag] at h1 h2; simp only [rhumbInverse, h1, h2]
+  case s12 => simp only [rhumbFlag] at h1 h2; simp only [rhumbInverse, h1, h2]
+  case S12 => simp only [rhumbFlag] at h1 h2; simp only [rhumbInverse, h1, h2]
+  all_goals rfl
+
+theorem rhumbInverse_isSome_iff (m : Nat) (o : Out) :
+    (rhumbInverse m o).isSome = true ↔ o ∈ writtenRhumbInverse m := by
+  unfold writtenRhumbInverse rhumbInverse
+  by_cases a : m &&& rhumb_DISTANCE = 0 <;> by_cases b : m &&& rhumb_AZIMUTH = 0 <;>
+    by_cases c : m &&& rhumb_AREA = 0 <;> cases o <;> simp [a, b, c]
+
+/-- non-vacuity: with and without `LONG_UNROLL`, `S12` is requested -/
+example : ((rhumb_AREA ||| rhumb_LONG_UNROLL) &&& rhumbFlag .S12 != 0) = true ∧ (rhumb_ALL &&& rhumbFlag .S12 != 0) = true := by decide
+
+
+/-- **no unassigned local is read**: with canonical masks, the term the series `GenInverse` assigns to a requested output,
+    and the `a12` it returns, mention no local variable or coefficient array that was not assigned on the way -/
+theorem genInverseG_no_uninit (c : InvCfg) (hl : c.lengths = lengthsG) (wred : Nat) (br : InvBranch) (om : Nat) (o : Out)
+    (h : want c.e (om &&& wred) o = true) (cn : Canon c (om &&& wred)) :
+    (genInverse c wred br om o).all (fun t => !t.hasUninit) = true ∧ (genInverseRet c wred br om).hasUninit = false := by
+  obtain ⟨ns, nm, nG, nJ, mG, mm, ms⟩ := cn
+  have mL := wantLen_of c.e _ .s12 (Or.inl rfl) ms
+  have mR := wantRG_of c.e _ .m12 (Or.inl rfl) mm
+  constructor
+  · cases o
+    case lat2 => simp [genInverse]
+    case lon2 => simp [genInverse]
+    case azi2 => simp [genInverse, h, T.hasUninit, T.anyUninit]
+    case S12 => simp [genInverse, h, T.hasUninit, T.anyUninit]
+    case s12 =>
+      have n1 := ns h
+      have nL := wantLen_of c.e _ .s12 (Or.inl rfl) n1
+      cases br <;> simp [genInverse, h, invCore, hl, lengthsG, orUninit, lenArgs, ms, mm, mL, mR, n1, nL, T.hasUninit, T.anyUninit]
+    case m12 =>
+      have n2 := nm h
+      have nR := wantRG_of c.e _ .m12 (Or.inl rfl) n2
+      have n1 := nJ nR
+      have nL := wantLen_of c.e _ .s12 (Or.inl rfl) n1
+      cases br <;> simp [genInverse, h, invCore, hl, lengthsG, orUninit, lenArgs, ms, mm, mL, mR, n1, n2, nL, nR, T.hasUninit, T.anyUninit]
+    case M12 =>
+      have g1 : want c.e (c.newt (om &&& wred) &&& c.red) .M12 = true := by rw [nG]; exact h
+      have g2 : want c.e (c.mer (om &&& wred) &&& c.red) .M12 = true := by rw [mG]; exact h
+      have g1' : want c.e (c.newt (om &&& wred) &&& c.red) .M21 = true := g1
+      have g2' : want c.e (c.mer (om &&& wred) &&& c.red) .M21 = true := g2
+      have nR := wantRG_of c.e _ .M12 (Or.inr (Or.inl rfl)) g1
+      have n1 := nJ nR
+      have nL := wantLen_of c.e _ .s12 (Or.inl rfl) n1
+      cases br <;> simp [genInverse, h, invCore, hl, lengthsG, orUninit, lenArgs, ms, mm, mL, mR, n1, nL, nR, g1, g2, g1', g2', T.hasUninit, T.anyUninit]
+    case M21 =>
+      have h' : want c.e (om &&& wred) .M12 = true := h
+      have g1 : want c.e (c.newt (om &&& wred) &&& c.red) .M12 = true := by rw [nG]; exact h
+      have g2 : want c.e (c.mer (om &&& wred) &&& c.red) .M12 = true := by rw [mG]; exact h
+      have g1' : want c.e (c.newt (om &&& wred) &&& c.red) .M21 = true := g1
+      have g2' : want c.e (c.mer (om &&& wred) &&& c.red) .M21 = true := g2
+      have nR := wantRG_of c.e _ .M12 (Or.inr (Or.inl rfl)) g1
+      have n1 := nJ nR
+      have nL := wantLen_of c.e _ .s12 (Or.inl rfl) n1
+      cases br <;> simp [genInverse, h, h', invCore, hl, lengthsG, orUninit, lenArgs, ms, mm, mL, mR, n1, nL, nR, g1, g2, g1', g2', T.hasUninit, T.anyUninit]
+  · cases br <;> simp [genInverseRet, invCore, hl, lengthsG, orUninit, lenArgs, ms, mm, mL, mR, T.hasUninit, T.anyUninit]
+
+open Gen.LengthMask in
+/-- for the masks extracted from `Geodesic.cpp`: every flag union, every branch, every requested output -/
+theorem geod_inverse_no_uninit (sel : Nat) (hs : sel < 512) (br : InvBranch) (o : Out) (w : o ∈ writtenInverse geod (buildMask geod sel)) :
+    (genInverse cfgG geod_wrapperReduce br (buildMask geod sel) o).all (fun t => !t.hasUninit) = true ∧
+    (genInverseRet cfgG geod_wrapperReduce br (buildMask geod sel)).hasUninit = false :=
+  genInverseG_no_uninit cfgG rfl _ br _ o ((mem_writtenInverse_iff geod _ o).mp w).2 (geod_lengthmask_canonical sel hs)
+
 
 end GeoVerif.Props.C12
